@@ -45,8 +45,11 @@ def _is_cursor_ref(node, recv):
     return dotted_name(node) == recv
 
 
-def bindings(ctx, finfo):
-    """All recognisable bindings of SELECT sites in finfo."""
+def bindings(ctx, finfo, _depth=0):
+    """All recognisable bindings of SELECT sites in finfo, plus the bindings of
+    helpers that run a query and return its columns:  `(a, b) = helper(conn)`
+    where the helper ends in `return (x, y)` and x, y are bound to select-list
+    columns there -- a, b are then bound to those columns here."""
     flow = Flow.of(finfo)
     out = []
     sites = [s for s in ctx.sites_in(finfo) if s.stmt is not None and s.stmt.kind == "select"]
@@ -54,6 +57,48 @@ def bindings(ctx, finfo):
         b = _bind_site(ctx, finfo, flow, s)
         if b is not None:
             out.append(b)
+    if _depth < 2:
+        for st in ast.walk(finfo.node):
+            if not (isinstance(st, ast.Assign) and len(st.targets) == 1 and isinstance(st.value, ast.Call)):
+                continue
+            try:
+                tg = ctx.cg.resolve_callee(finfo, st.value.func)
+            except Exception:
+                tg = []
+            if len(tg) != 1 or tg[0] == finfo.fq:
+                continue
+            helper = ctx.cg.func(tg[0])
+            rets = [r for r in ast.walk(helper.node) if isinstance(r, ast.Return) and r.value is not None]
+            if len(rets) != 1:
+                continue
+            rv = rets[0].value
+            rnames = [e.id if isinstance(e, ast.Name) else None for e in rv.elts] if isinstance(rv, (ast.Tuple, ast.List)) else \
+                ([rv.id] if isinstance(rv, ast.Name) else None)
+            tnames = _target_names(st.targets[0])
+            if rnames is None or tnames is None or len(rnames) != len(tnames) or (isinstance(rv, ast.Name) and not isinstance(st.targets[0], ast.Name)):
+                continue
+            hflow = Flow.of(helper)
+            for hb in bindings(ctx, helper, _depth + 1):
+                if hb.kind != "columns":
+                    continue
+                names = [None] * len(hb.names)
+                hit = False
+                for col, hn in enumerate(hb.names):
+                    if hn is None:
+                        continue
+                    for pos, rn in enumerate(rnames):
+                        if rn == hn and tnames[pos] is not None:
+                            # the returned name must still be the bound one (no reassignment in between)
+                            rnode = rv.elts[pos] if isinstance(rv, (ast.Tuple, ast.List)) else rv
+                            d = hflow.reaching_defs(rnode)
+                            bn = hflow.cfg.node(hb.stmt)
+                            if d is not None and bn is not None and d == {bn}:
+                                names[col] = tnames[pos]
+                                hit = True
+                if hit:
+                    nb = Binding(hb.site, names, st, hb.kind)
+                    nb.via = helper.fq
+                    out.append(nb)
     return out
 
 
